@@ -49,7 +49,7 @@ ASSUMPTIONS = [
     'after NEW the error trap cannot be observed separately (no program left) - not judged there',
     'after CHAIN only variables are judged, plus DEF FN / DEFtype for a CHAIN without MERGE and without ALL '
     '(GW-BASIC manual: only then they are not passed on); OPTION BASE after CHAIN is not judged',
-    'Out of memory raised by CHAIN or while building is accepted in the tight-memory cases only '
+    'Out of memory / Out of string space raised by CHAIN or while building is accepted in the tight-memory cases only '
     '(recorded as an outcome)',
     'COMMON lists and all references use explicit type sigils',
 ]
@@ -416,6 +416,8 @@ def _common_lists():
 
 
 COMMONS = _common_lists()      # 19
+# for the longest histories (thorough): none, each single name, all four, all eight
+REDUCED_COMMONS = [i for i, c in enumerate(COMMONS) if len(c) in (0, 1, 8) or c == COMMON_UNIVERSE]
 
 CHAINS = [
     ('CHAIN', 'chain', 'CHAIN "NEXT"', False, False),
@@ -426,7 +428,6 @@ CHAINS = [
     ('CHAIN MERGE ALL', 'chain-merge-all', 'CHAIN MERGE "OVL",1000,ALL', True, True),
 ]
 CHAIN_FILES = {'NEXT.BAS': b'10 END\r\n1000 END\r\n\x1a', 'OVL.BAS': b'1000 END\r\n\x1a'}
-TIGHT = 700
 
 
 def run_chain_case(part, order, ci, chi, base, tight, extras):
@@ -439,12 +440,12 @@ def run_chain_case(part, order, ci, chi, base, tight, extras):
         def viol(key, what):
             part.violation(key, '%s, COMMON %s, after %s%s%s: %s' % (
                 label, ','.join(common) or '(none)', '; '.join(VAROPS[o] for o in order) or '(nothing)',
-                ', OPTION BASE 1' if base else '', ', tight memory' if tight else '', what), case)
+                ', OPTION BASE 1' if base else '', ', tight memory (%d bytes free)' % tight if tight else '', what), case)
         c.enter(_program(builders, stmt, common=common, order=list(order)))
         if tight:
             r = c.run('PRINT FRE(0)')
             free = int(r.out.strip())
-            r = c.run('CLEAR ,%d' % (65534 - free + TIGHT))
+            r = c.run('CLEAR ,%d' % (65534 - free + tight))
             if r.err is not None or r.exc is not None:
                 raise CheckError('CLEAR for tight memory failed: %r' % r)
         r = c.run('RUN 20')
@@ -452,8 +453,8 @@ def run_chain_case(part, order, ci, chi, base, tight, extras):
             viol('%s/host-exception/%s' % (ccls, H.exc_key(r.exc)), repr(r.exc))
             return 'exc'
         if r.err is not None:
-            if r.err == 7 and tight:
-                return 'oom-line-%s' % ('chain' if r.erl == 620 else 'build')
+            if r.err in (7, 14) and tight:
+                return 'oom%d-%s' % (r.err, 'in-chain' if r.erl == 620 else 'while-building')
             viol('%s/error-%s-in-line-%s' % (ccls, r.err, r.erl), 'program failed: %r' % (r.out[:80],))
             return 'err'
         model = _new_model()
@@ -488,7 +489,7 @@ def work_chain(shard):
         part.traces += 1
         part.outcome(oc)
         part.classes.add('%s|n%d|c%d|%s%s%s|%s' % (
-            CHAINS[chi][0], len(order), len(COMMONS[ci]), 'b1' if base else 'b0', 't' if tight else '',
+            CHAINS[chi][0], len(order), len(COMMONS[ci]), 'b1' if base else 'b0', 't%d' % tight if tight else '',
             'x' if extras else '', oc[:3]))
     o = shard[0]
     part.sample({'ops': [VAROPS[x] for x in o[0]], 'common': COMMONS[o[1]], 'chain': CHAINS[o[2]][0]})
@@ -523,12 +524,15 @@ def legs(ctx):
     for order in orders:
         for ci in range(len(COMMONS)):
             if ctx.quick:
-                combos = [(0, 0, 0, 0), (2, 0, 0, 0), (3, 1, 0, 0), (4, 0, 0, 0), (0, 1, 1, 0)]
+                combos = [(0, 0, 0, 0), (2, 0, 0, 0), (3, 1, 0, 0), (4, 0, 600, 0), (0, 1, 330, 0)]
                 if len(order) <= 1:
-                    combos += [(1, 0, 0, 1), (5, 0, 1, 0), (0, 0, 0, 1)]
+                    combos += [(1, 0, 0, 1), (5, 0, 600, 0), (0, 0, 0, 1)]
             else:
-                combos = [(chi, base, tight, 0) for chi in range(len(CHAINS)) for base in (0, 1)
-                          for tight in (0, 1) if not (base and tight and chi in (1, 5))]
+                if len(order) == 3 and ci not in REDUCED_COMMONS:
+                    continue
+                combos = [(chi, base, 0, 0) for chi in range(len(CHAINS)) for base in (0, 1)]
+                combos += [(chi, 0, 600, 0) for chi in range(len(CHAINS))]
+                combos += [(0, 0, 330, 0), (3, 0, 330, 0), (4, 1, 600, 0)]
                 if len(order) <= 1:
                     combos += [(chi, 0, 0, 1) for chi in range(len(CHAINS))]
             for chi, base, tight, extras in combos:
@@ -537,8 +541,8 @@ def legs(ctx):
                    bound='all %d ordered histories of <=%d of %d variable operations x %d COMMON lists x %s' % (
                        len(orders), d, len(VARORDER), len(COMMONS),
                        '5-8 (CHAIN form, OPTION BASE, memory) combinations' if ctx.quick else
-                       '6 CHAIN forms x OPTION BASE 0/1 x normal/tight memory (+ DEF FN/DEFtype extras for '
-                       'histories <=1)') + '; %d cases' % len(ccases)))
+                       '21 (CHAIN form, OPTION BASE, memory normal/600/330 bytes free) combinations (+ DEF FN/'
+                       'DEFtype extras for histories <=1; histories of length 3 with 8 of the COMMON lists)') + '; %d cases' % len(ccases)))
     return out
 
 
